@@ -46,6 +46,8 @@ struct Shared {
     blocked_in_send: AtomicBool,
     release_send: AtomicBool,
     send_waker: Mutex<Option<Waker>>,
+    /// inbound flood: while positive, `recv` is always ready with one more valid SYN
+    flood_left: AtomicU64,
 }
 
 struct ScriptedTransport {
@@ -104,6 +106,11 @@ impl Socket for ScriptedSocket {
             match inbox.pop_front() {
                 Some(RecvItem::Msg(from, m)) => Poll::Ready(Ok((from, m))),
                 Some(RecvItem::Fatal) => Poll::Ready(Err(anyhow::anyhow!("scripted fatal recv error"))),
+                None if shared.flood_left.load(Ordering::SeqCst) > 0 => {
+                    let n = shared.flood_left.fetch_sub(1, Ordering::SeqCst);
+                    let m = real::build_real(&Msg::Syn { digest: vec![DigestEntry { id: peer_id(), heartbeat: 1_000_000 - n, gc: 0, mv: 0 }], cluster_id: "c".into() }).unwrap();
+                    Poll::Ready(Ok((peer_id().addr, m)))
+                }
                 None => {
                     shared.recv_polls.fetch_add(1, Ordering::SeqCst);
                     *shared.recv_waker.lock().unwrap() = Some(cx.waker().clone());
@@ -260,6 +267,13 @@ impl Driver {
             }
         }
         false
+    }
+
+    /// Wakes the receive side (used after arming the flood).
+    fn push_wake(&self) {
+        if let Some(w) = self.shared.recv_waker.lock().unwrap().take() {
+            w.wake();
+        }
     }
 
     fn push(&self, item: RecvItem) {
@@ -544,6 +558,7 @@ pub fn run(tier: Tier, started: Instant) -> Vec<Part> {
     v.push(decode_on_receive_path(tier));
     v.push(udp_send_faults(tier.pick(3, 4)));
     v.push(udp_recv_sequences("C19", tier.pick(2, 3)));
+    v.push(fairness_under_flood());
     v.push(udp_smoke());
     v
 }
@@ -1013,6 +1028,151 @@ pub fn udp_recv_sequences(property: &'static str, max_len: usize) -> Part {
     part
 }
 
+// ------------------------------------------------------------------ fairness of the loop under an inbound flood (C19)
+
+const FLOOD: u64 = 20_000;
+
+/// With a datagram always waiting in the socket, the other two branches of the loop (gossip tick,
+/// commands) must still be served: a shutdown request completes, a round runs, a user command is
+/// executed — long before the flood is over.
+pub fn fairness_under_flood() -> Part {
+    let mut part = Part::new("server/fairness-under-inbound-flood");
+    part.rule = format!("the real gossip loop over the scripted socket whose recv() is ready {FLOOD} times in a row with a valid SYN (a peer or an attacker sending faster than the node processes); while the flood lasts: (a) a shutdown request must complete, (b) a gossip interval must produce a round (own heartbeat raised, SYN attempts), (c) a user gossip command must produce a SYN attempt — each after fewer than {} flood datagrams were consumed; preceded by each of {{nothing, a received SYN, a failed send, a gossip interval}}; the loop picks among ready branches at random: the demand fails for a fair loop with probability < (2/3)^{}", FLOOD / 10, FLOOD / 10);
+    #[derive(Clone, Copy, Debug)]
+    enum Probe {
+        Shutdown,
+        Round,
+        Command,
+    }
+    let pres: [&[Ev]; 4] = [&[], &[Ev::RecvSyn], &[Ev::NextSendErr, Ev::RecvSyn], &[Ev::Delay]];
+    let mut cases = vec![];
+    for pre in pres {
+        for probe in [Probe::Shutdown, Probe::Round, Probe::Command] {
+            cases.push((pre.to_vec(), probe));
+        }
+    }
+    let results: Vec<Option<(String, String, Value)>> = cases
+        .par_iter()
+        .map(|(pre, probe)| {
+            let pre = pre.clone();
+            let probe = *probe;
+            let replay = json!({"engine":"server","kind":"flood","pre":pre.iter().map(|e| e.name()).collect::<Vec<_>>(),"probe":format!("{probe:?}")});
+            let r = guarded(|| {
+                crate::clock::block_on(async {
+                    let mut d = Driver::new().await;
+                    let mut t = Tally::default();
+                    for e in &pre {
+                        if d.apply(*e, &mut t).await.is_err() {
+                            return None;
+                        }
+                    }
+                    d.shared.flood_left.store(FLOOD, Ordering::SeqCst);
+                    d.push_wake();
+                    let consumed = |d: &Driver| FLOOD - d.shared.flood_left.load(Ordering::SeqCst);
+                    let verdict: Option<String> = match probe {
+                        Probe::Shutdown => {
+                            let h = d.handle.take().unwrap();
+                            let mut fut = Box::pin(h.shutdown());
+                            let mut done = false;
+                            for _ in 0..20_000 {
+                                if let Poll::Ready(_) = poll_once(&mut fut).await {
+                                    done = true;
+                                    break;
+                                }
+                                tokio::task::yield_now().await;
+                                if d.shared.flood_left.load(Ordering::SeqCst) == 0 {
+                                    break;
+                                }
+                            }
+                            let c = consumed(&d);
+                            if !done && c >= FLOOD {
+                                // give it the chance to finish once the flood is over, to tell starvation from a hang
+                                let _ = bounded(&mut fut).await;
+                            }
+                            if !done || c >= FLOOD / 10 {
+                                Some(format!("a shutdown request was not served while datagrams kept arriving: {c} of {FLOOD} consecutive datagrams were processed first{}", if done { "" } else { " (and it had not completed when the flood ended)" }))
+                            } else {
+                                None
+                            }
+                        }
+                        Probe::Round => {
+                            let hb0 = d.own_heartbeat().await;
+                            tokio::time::advance(GOSSIP_INTERVAL).await;
+                            let mut served_at = None;
+                            for _ in 0..20_000 {
+                                tokio::task::yield_now().await;
+                                let hb = d.own_heartbeat().await;
+                                if let (Some(a), Some(b)) = (hb0, hb) {
+                                    if b > a {
+                                        served_at = Some(consumed(&d));
+                                        break;
+                                    }
+                                }
+                                if d.shared.flood_left.load(Ordering::SeqCst) == 0 {
+                                    break;
+                                }
+                            }
+                            match served_at {
+                                Some(c) if c < FLOOD / 10 => None,
+                                Some(c) => Some(format!("a due gossip round only ran after {c} of {FLOOD} consecutive inbound datagrams")),
+                                None => Some(format!("a due gossip round did not run while {FLOOD} consecutive inbound datagrams were processed")),
+                            }
+                        }
+                        Probe::Command => {
+                            let target = SocketAddr::from(([127, 0, 0, 1], 10_777));
+                            let r = d.handle.as_ref().unwrap().gossip(target);
+                            let mut served_at = None;
+                            if r.is_ok() {
+                                for _ in 0..20_000 {
+                                    tokio::task::yield_now().await;
+                                    if d.shared.sent.lock().unwrap().iter().any(|(to, k, _)| *to == target && *k == "syn") {
+                                        served_at = Some(consumed(&d));
+                                        break;
+                                    }
+                                    if d.shared.flood_left.load(Ordering::SeqCst) == 0 {
+                                        break;
+                                    }
+                                }
+                            }
+                            match served_at {
+                                Some(c) if c < FLOOD / 10 => None,
+                                Some(c) => Some(format!("a user gossip command was only executed after {c} of {FLOOD} consecutive inbound datagrams")),
+                                None => Some(format!("a user gossip command was not executed while {FLOOD} consecutive inbound datagrams were processed")),
+                            }
+                        }
+                    };
+                    d.shared.flood_left.store(0, Ordering::SeqCst);
+                    if let Some(h) = d.handle.take() {
+                        h.abort();
+                    }
+                    tokio::task::yield_now().await;
+                    verdict
+                })
+            });
+            match r {
+                Ok(None) => None,
+                Ok(Some(what)) => Some((what, "starved-by-inbound-traffic".to_string(), replay)),
+                Err(p) => Some((format!("driver panicked: {p}"), "machinery-panic".to_string(), replay)),
+            }
+        })
+        .collect();
+    let n = cases.len() as u64;
+    for r in results.into_iter().flatten() {
+        if r.1 == "machinery-panic" {
+            part.notes.push(format!("MACHINERY: {}", r.0));
+        } else {
+            part.violation("C19", format!("{} [{}]", r.0, r.2), r.1, r.2);
+        }
+    }
+    part.tally.add("cases", n);
+    part.states = n;
+    part.transitions = n * FLOOD;
+    part.executions = n;
+    part.distinct_nontrivial = n;
+    part.sample(json!({"pre": ["recv-syn"], "probe": "Shutdown"}));
+    part
+}
+
 /// The round-level clause of C17 (every round contacts the seed when it has to, whatever happened to
 /// the earlier sends of the round) on the real server loop: same scripts, only that oracle reported.
 pub fn run_c17(tier: Tier, started: Instant) -> Vec<Part> {
@@ -1302,6 +1462,13 @@ pub fn replay(v: &Value) -> Result<(), String> {
     }
     if v.get("udp_sends").is_some() {
         let p = udp_send_faults(3);
+        return match p.violations.first() {
+            Some(x) => Err(x.what.clone()),
+            None => Ok(()),
+        };
+    }
+    if v["kind"].as_str() == Some("flood") {
+        let p = fairness_under_flood();
         return match p.violations.first() {
             Some(x) => Err(x.what.clone()),
             None => Ok(()),
